@@ -261,6 +261,8 @@ def features(cfg):
     for nd in cfg["nodes"]:
         if nd["kind"] == "bind" and nd["name_style"] != "New":
             f.add("bind-by-name")
+        if nd["kind"] == "bind" and nd.get("apart") and cfg.get("set_layout", 0) != 0 and cfg.get("_first_list"):
+            f.add("bind-apart-from-provider")
         if nd["kind"] == "struct" and nd.get("form") == "value":
             f.add("struct-value-form")
     for c in cfg["cfgs"]:
@@ -390,7 +392,7 @@ def check_c13(tier, seed):
             if extra:
                 rp.update(extra)
             fid = None
-            for f in ("bind-by-name", "struct-value-form", "fieldsof-value-form"):
+            for f in ("bind-by-name", "struct-value-form", "fieldsof-value-form", "bind-apart-from-provider"):
                 if f in feats:
                     fid = "C13-" + f
                     break
@@ -487,12 +489,15 @@ def check_c13(tier, seed):
                 faithful_units += 1
                 nm0 = str(r["k"]) + (":2" if root else "")
                 if r["mig_rc"] != 0 or not equal_impl.get(nm0, False):
-                    if not (root and r["mig_rc"] != 0):
+                    # (a refusal is a verdict on the whole package: the second injector cannot be judged when the
+                    # migration or the generation of the package failed because of the first)
+                    if not (root and (r["mig_rc"] != 0 or r.get("gen_rc") != 0)):
                         faithful_bad.append((r["desc"] + (" [Init2]" if root else ""), m_full))
             nm = str(r["k"]) + (":2" if root else "")
-            if r["mig_rc"] != 0:
-                if root:
-                    continue            # the refusal is a verdict on the whole package; the model judges one injector
+            if root and (r["mig_rc"] != 0 or r.get("gen_rc") != 0):
+                continue                # the refusal is a verdict on the whole package; the model judges one injector
+            if r["mig_rc"] != 0 or (r.get("gen_rc") not in (0, None) and "multiple providers" in (r.get("gen_out") or "")):
+                # (the model counts an ambiguous migrated declaration - two suppliers of one type - as refused)
                 impl = "W migrate=refused"
             elif nm in equal_impl:
                 impl = "W migrate=ok equal=%s" % ("true" if equal_impl[nm] else "false")
